@@ -51,7 +51,9 @@ ASSUMPTIONS = [
 ]
 
 NURI = 8
-URI_TAILS = ["/u0.html", "/u1.html", "/u2.html", "/u3.txt", "/s/u4.html", "/s/u5.html", "/s/t/u6.html", "/s/t/u7.html"]
+# (two names merely CONTAIN two dots: they are ordinary file names below the root)
+URI_TAILS = ["/u0.html", "/u1..v2.html", "/u2.html", "/u3.txt", "/s/u4.html", "/s/u5..txt", "/s/t/u6.html", "/s/t/u7.html"]
+DIR_NAMES = ["d0", "dir1_with_a_longer_name", "d2x"]  # configured order is what counts, whatever the names look like
 MAXOPS = 40
 CHUNK = 50  # machines per hypothesis run
 CSIZES = [-1, 1, 2, 4]
@@ -179,7 +181,7 @@ class World:
         _world_counter[0] += 1
         self.prefix = "/c%d" % _world_counter[0]
         self.uris = [self.prefix + t for t in URI_TAILS]
-        self.dirs = [os.path.join(self.root, "d%d" % i) for i in range(self.ndirs)]
+        self.dirs = [os.path.join(self.root, DIR_NAMES[i]) for i in range(self.ndirs)]
         for d in self.dirs:
             os.makedirs(d)
         self.sim = fsim.Sim()
@@ -628,7 +630,10 @@ class World:
     def op_put_template(self, u, ck):
         self.vcount += 1
         tok = "t%dv%d" % (u, self.vcount)
-        t = self.RealTemplate(good_text(ck % GOOD_KINDS, tok), uri=self.uris[u])
+        try:
+            t = self.RealTemplate(good_text(ck % GOOD_KINDS, tok), uri=self.uris[u])
+        except Exception as ex:
+            raise self.violation("put", "Template(text, uri=%r) raised %s: %s" % (self.uris[u], type(ex).__name__, ex))
         try:
             self.lookup.put_template(self.uris[u], t)
         except Exception as ex:
